@@ -19,9 +19,9 @@ import (
 
 	networkv1beta1 "github.com/AliyunContainerService/terway/pkg/apis/network.alibabacloud.com/v1beta1"
 	"github.com/AliyunContainerService/terway/pkg/eni"
-	daemonTypes "github.com/AliyunContainerService/terway/types/daemon"
 	terwayTypes "github.com/AliyunContainerService/terway/types"
 	"github.com/AliyunContainerService/terway/types/controlplane"
+	daemonTypes "github.com/AliyunContainerService/terway/types/daemon"
 )
 
 func init() {
